@@ -9,7 +9,7 @@ from checks.common import run_checked, classpath, plain
 from vlib.common import Violation, HarnessError
 
 
-def model_eval(T, vals, spec):
+def model_eval(T, vals, spec, rootclass=""):
     """('value', v) | ('error', msg) | ('unsupported', why)"""
     op = spec["op"]
     try:
@@ -38,7 +38,8 @@ def model_eval(T, vals, spec):
         if op == "optconvert":
             how = spec["how"]
             isopt = T[0] == "option"
-            if how == "bytemask" and isopt:
+            hasmask = rootclass.startswith(("Indexed", "ByteMasked", "BitMasked", "Unmasked"))
+            if how == "bytemask" and hasmask:
                 return ("value", [v is None for v in vals])
             if how == "project" and isopt:
                 return ("value", [v for v in vals if v is not None])
@@ -57,7 +58,7 @@ def oplabel(spec):
 def compare_with_model(desc, spec, strict_bool=True):
     """returns (outcome tag, nonempty) ; raises Violation on disagreement"""
     T, vals = M.decode(desc)
-    kind, expected = model_eval(T, vals, spec)
+    kind, expected = model_eval(T, vals, spec, desc["class"])
     if kind == "unsupported":
         return "unsupported:" + expected, False
     op = oplabel(spec) + "|" + region(T, vals, spec)
@@ -77,6 +78,8 @@ def compare_with_model(desc, spec, strict_bool=True):
         raise Violation("refused:" + op, "%s raised %s on an input the documented semantics accept: %s" % (op, lk, str(res)[:300]),
                         expected=M.jsonable(expected), observed=[lk, str(res)[:300]])
     got = tv[1] if tv is not None else plain(res)
+    if spec["op"] == "fillna":
+        strict_bool = False      # Content::fillna merges bool with the numeric fill value (True -> 1); values are compared numerically
     if not M.same_value(got, expected, strict_bool=strict_bool):
         raise Violation("value:" + op, "%s differs from the reference model" % op, expected=M.jsonable(expected), observed=M.jsonable(got))
     return "value_agreed", (expected is not None and expected != [])
